@@ -19,14 +19,19 @@ then the vertical ones (y, x)-(y+1, x) row-major [(height-1) x width].
 The checker decides inside / outside independently of the module (which propagates a crossing parity down from the
 top edge): it flood-fills the faces of the lattice of cell centres from the unbounded face, never stepping across a
 loop segment; a cell centre that is not on the loop is outside iff one of the faces around it was reached.
-That "crossing parity = reachability" is the Jordan curve theorem for lattice loops, which is not formalised: this
-differential is the evidence for it.
+The Lean theorem (Properties/C11_CastleWall.lean) states inside / outside by the even-odd rule for a HORIZONTAL ray
+(Spec/PuzzleRules/CastleWall.lean::inside) and proves that the module's vertical-ray face parity agrees with it and that
+the rule does not depend on the ray (`inside_ray_invariance`).  That "crossing parity = reachability from the unbounded
+face" (the other half of the Jordan curve theorem for lattice loops) is not formalised: this differential is the
+evidence for it.
 """
 import itertools
 
 NAME = "castle_wall"
-STATUS = "partial: planar argument (model + differential only)"
-THEOREMS = []
+STATUS = "theorem"
+THEOREMS = ["Cspuz.C11.CastleWall.program_iff_rules", "Cspuz.C11.CastleWall.total",
+            "Cspuz.C11.CastleWall.inside_ray_invariance"]
+LEAN_FILE = "C11_CastleWall"
 LEAN_CMD = "puz_castle_wall"
 # set to True once the line-board repair (IndexError for an inside / outside mark on a board with one row or column)
 # is committed in /repo: the Lean model then mirrors the repaired loop (`insideCs' true`)
